@@ -193,6 +193,9 @@ func (x *Exec) oblige(id, kind string, pc, goal T, note string, pos token.Pos) *
 // ---------------------------------------------------------------- values
 
 func (x *Exec) zeroVal(t types.Type) Val {
+	if w := floatWidth(t); w != 0 && x.th.Mode() == "int" {
+		return FloatV{Bits: intT64(0), W: w}
+	}
 	if k := bigKind(t); k != "" && x.th.Mode() == "int" {
 		return x.bigZero(k)
 	}
@@ -238,6 +241,9 @@ func (x *Exec) zeroVal(t types.Type) Val {
 }
 
 func (x *Exec) freshVal(hint string, t types.Type) Val {
+	if w := floatWidth(t); w != 0 && x.th.Mode() == "int" {
+		return x.freshFloat(hint, w)
+	}
 	if k := bigKind(t); k != "" && x.th.Mode() == "int" {
 		return x.bigFresh(hint, k)
 	}
@@ -331,6 +337,11 @@ func (x *Exec) constVal(c *ssa.Const) Val {
 		return x.constString(constant.StringVal(c.Value))
 	}
 	if b, ok := t.Underlying().(*types.Basic); ok && b.Info()&types.IsFloat != 0 {
+		if w := floatWidth(t); w != 0 && x.th.Mode() == "int" {
+			if f, ok := floatConst(c.Value, w); ok {
+				return f
+			}
+		}
 		return Opaque{Desc: "floatconst " + c.Value.String()}
 	}
 	panic(unsupported("constant of type " + t.String()))
@@ -561,6 +572,10 @@ func (x *Exec) warn(format string, a ...interface{}) {
 
 func collectInputs(v Val, out *[]string) {
 	switch y := v.(type) {
+	case FloatV:
+		if isAtom(y.Bits.S) && y.Bits.C == nil {
+			*out = append(*out, y.Bits.S)
+		}
 	case Leaf:
 		if isAtom(y.T.S) && y.T.C == nil && y.T.B == nil {
 			*out = append(*out, y.T.S)
